@@ -6,5 +6,6 @@ CONSTANTS
   Stay = TRUE
   WaitsForPager = FALSE
   RetriesShort = TRUE
+  RetriesEINTR = TRUE
 INVARIANTS NoEarlyExit
 CHECK_DEADLOCK FALSE
